@@ -345,11 +345,17 @@ pub fn write_outcome<S: Src>(s: &mut S, g: usize) {
 /// assumed to lie in the first `dram_window` bytes of DRAM.  Decides "no aliasing / persistence" for every
 /// pair of write addresses and every probe address of those regions, interior addresses included.
 pub fn sym_write_probe<S: Src>(s: &mut S, dram_window: u32) {
+    sym_write_probe_n(s, dram_window, 2)
+}
+
+/// `writes` = 1: the second write repeats the first address (a store over a store), which keeps the formula smaller.
+pub fn sym_write_probe_n<S: Src>(s: &mut S, dram_window: u32, writes: u8) {
     let a1 = s.u32();
     let v1 = s.u8();
     let a2 = s.u32();
     let v2 = s.u8();
     let probe = s.u32();
+    s.assume(writes != 1 || a2 == a1);
     let in_dram = |a: u32| a >= 0x400000 && a <= 0x5fffff;
     let dram_ok = |a: u32| !in_dram(a) || (dram_window > 0 && a - 0x400000 < dram_window);
     s.assume(dram_ok(a1) && dram_ok(a2) && dram_ok(probe));
@@ -375,7 +381,7 @@ pub fn sym_write_probe<S: Src>(s: &mut S, dram_window: u32) {
         Ok(v) => v == expect,
         Err(_) => true,
     };
-    witness!(r.is_ok() && probe == a1 && a1 != a2 && v1 != 0 && a1 >= 0xffbf20, "probe reads the first write (RAM or I/O)");
+    witness!(when: writes == 2, r.is_ok() && probe == a1 && a1 != a2 && v1 != 0 && a1 >= 0xffbf20, "probe reads the first write (RAM or I/O)");
     witness!(r.is_ok() && probe == a2 && a1 == a2 && v1 != v2, "second write to the same address wins");
     witness!(r.is_ok() && probe != a1 && probe != a2 && r1.is_ok() && r2.is_ok(), "probe elsewhere");
     witness!(when: dram_window > 0, r.is_ok() && in_dram(probe) && probe == a1 && v1 != 0, "DRAM write read back");
